@@ -286,6 +286,35 @@ def consumed_handles(F, R):
     R.floor('handle-consuming C functions', n, 19)
 
 
+def arms_free_alike(F, R):
+    """Every C function dispatches on the service type (IPC / LOCAL) with two arms that do the same thing on different union members.  The two
+    arms call a handle `deleter` equally often (error clean-up of freshly allocated handle storage included): an arm that lost a deleter
+    call leaks the storage for that service type only."""
+    n = nbad = 0
+    for f in F.fn_list:
+        if f.crate != 'iceoryx2_ffi_c' or f.kind != 'fn':
+            continue
+        deleter = [s_ for s_ in f.sites if s_.is_call and s_.callee is None and 'deleter' in f.chain(s_.node[1]['p'])]
+        if not deleter:
+            continue
+        for b in range(len(f.blocks)):
+            si = f.switch_info(b) or {}
+            if not (si.get('enum_ty', '') or '').endswith('iox2_service_type_e'):
+                continue
+            arms = dict(lib.arm_blocks(f, b, lambda l: l in ('IPC', 'LOCAL'), F))
+            if len(arms) != 2 or arms['IPC'] == arms['LOCAL']:
+                continue
+            cnt = {lab: len([d for d in deleter if f.edge_dominates(b, tgt, d.b)]) for lab, tgt in arms.items()}
+            if not any(cnt.values()):
+                continue
+            n += 1
+            ok = cnt['IPC'] == cnt['LOCAL']
+            if not ok:
+                nbad += 1
+            R.ob('SIBLINGS', 'SIBLINGS::%s::IPC-and-LOCAL-arms-free-alike#bb%d' % (fnkey(f), b) if not ok else 'SIBLINGS::%s::IPC-and-LOCAL-arms-free-alike' % fnkey(f), ok, 'deleter calls under the IPC arm: %d, under the LOCAL arm: %d' % (cnt['IPC'], cnt['LOCAL']), f.term_site(b).where, f)
+    R.floor('service_type dispatches with deleter calls in their arms', n, 8)
+
+
 def payload_passthrough(F, R):
     n = 0
     for f in F.fn_list:
@@ -303,6 +332,10 @@ def check(F, R, tier):
     union_arms(F, R)
     drop_shape(F, R)
     consumed_handles(F, R)
+    arms_free_alike(F, R)
+    # the type-erased receive path behind iox2_pending_response_receive() filters stale responses exactly like the typed Rust paths
+    from . import C11 as _C11
+    _C11.stale_response_filter(F, R)
     payload_passthrough(F, R)
 
 
